@@ -251,21 +251,23 @@ func NodePrintable(e *Expression) bool {
 }
 
 // LemmaValidatedPrintable: a node that passed validation can be printed.
-//
+
 //@ func LemmaValidatedPrintable
 //@   lemma
 //@   props C13 C01
 //@   requires e != nil && ShapeV(e)
 //@   ensures  NodePrintable(e)
+
 func LemmaValidatedPrintable(e *Expression) {}
 
 // LemmaParsedPrintable: so can every node of a parser-built tree.
-//
+
 //@ func LemmaParsedPrintable
 //@   lemma
 //@   props C01
 //@   requires ShapeP(e)
 //@   ensures  e != nil && NodePrintable(e)
+
 func LemmaParsedPrintable(e *Expression) {}
 
 //@ func (Expression).String
@@ -471,5 +473,36 @@ func ExprPost(r *Expression, left any, op Operator, right []any) bool {
 //@   loop 0: rangeinv len(vals) == idx && verifspec.Forall(0, idx, func(i int) bool { e, ok := l[i].(*Expression); return ok && vals[i] == e })
 
 // FuzzyDistanceOf / BoostPowerOf: spec accessors for the operator-specific state.
-func FuzzyDistanceOf(e *Expression) int   { return e.fuzzyDistance }
+func FuzzyDistanceOf(e *Expression) int  { return e.fuzzyDistance }
 func BoostPowerOf(e *Expression) float64 { return e.boostPower }
+
+// LemmaParsedLeaf: a leaf of a parser-built tree is a parser leaf.
+//
+//@ func LemmaParsedLeaf
+//@   lemma
+//@   props C01 C10
+//@   requires ShapeP(e)
+//@   ensures  e != nil && (LeafOp(e.Op) ==> ParserLeaf(e))
+
+func LemmaParsedLeaf(e *Expression) {}
+
+// LemmaDefaultFieldTerm: scoping a plain value to a field yields a parser-shaped node.
+//
+//@ func LemmaDefaultFieldTerm
+//@   lemma
+//@   props C10 C11
+//@   fuel 2 ShapeP=3
+//@   requires ParserValue(v)
+//@   ensures  ShapeP(Expr(field, Equals, v))
+
+func LemmaDefaultFieldTerm(field string, v any) {}
+
+// LemmaLeafParsed: a parser leaf is a parser-shaped tree.
+//
+//@ func LemmaLeafParsed
+//@   lemma
+//@   props C10
+//@   requires ParserLeaf(e)
+//@   ensures  ShapeP(e)
+
+func LemmaLeafParsed(e *Expression) {}
